@@ -621,7 +621,11 @@ def part_edges(ctx, impl, rng, quick):
             if bip_pool and not fl['bipartite'] and id_kind == 'int' and rng.random() < 0.5:
                 continue
             f = dict(fl, shape=rand_shape(rng), matrix_only=rng.choice([None, None, True, False]))
-            add('rnd_%s' % id_kind, id_kind, pairs, weights, f, as_array=(id_kind == 'int' and rng.random() < 0.2))
+            arr = id_kind == 'int' and rng.random() < 0.25
+            if arr and all(0 <= x < 120 for pr in pairs for x in pr) and (weights is None or all(isinstance(w, int) and 0 <= w < 120 for w in weights)):
+                # the identifiers are integers whatever the integer type of the array (int32 is what .nonzero() / .indices give)
+                arr = rng.choice([True, 'int32', 'int32', 'int16', 'uint8', 'uint64', 'int8'])
+            add('rnd_%s%s' % (id_kind, '_' + arr if isinstance(arr, str) else ''), id_kind, pairs, weights, f, as_array=arr)
     # float weights, every family x integer / string identifiers x list / array input x all 32 flag combinations
     # (in the model the weights are numerators over their common denominator, the int cast is decided exactly)
     for rep_ in range(1 if quick else 6):
